@@ -1062,7 +1062,7 @@ def run(ck: common.Check):
     # LAYOUT FREEDOM of variable-length properties: sections of `data` in every order, with gaps, shared, N-D, masked reads
     from harness.corr import _c02_layout as LY
     d2 += LY.layout_cases(ck.rng, ck.quick)
-    d2 += LY.random_layout_cases(ck.rng, 150 if ck.quick else 3000)
+    d2 += LY.random_layout_cases(ck.rng, 150 if ck.quick else 1500)
     # graphs in the domain of the spatial-graph backend (axes, numeric fixed-shape properties, no missing values)
     sg_warm()
     for _ in range(120 if ck.quick else 1200):
